@@ -6,6 +6,7 @@ CONSTANTS
   MaxCalls = 1
   MaxRead = 2
   Greedy = TRUE
+  CreditFirst = TRUE
   RecvPolicy = "impl"
 INVARIANTS TypeOK NoSleepWithWindow F1 F1b F2 NoError NoStuck
 PROPERTIES WritesReturn AllDelivered
